@@ -1692,7 +1692,8 @@ class TheCounter(Command):
         if self.format is None:
             format = '${%s.arabic}' % self.nodeName[3:]
 
-        t = re.sub(r'\$\{\s*(\w+)(?:\.(\w+))?\s*\}', counterValue, format)
+        # Counter names are built with \csname in LaTeX: anything but blanks, '.' and braces (e.g. "main-thm")
+        t = re.sub(r'\$\{\s*([^\s.{}]+)(?:\.(\w+))?\s*\}', counterValue, format)
 
         # If trimLeft is set to True, we remove any "0." at the beginning.
         # Document classes such as book and report which do this in the
